@@ -772,9 +772,9 @@ func (view *View) Limit(ctx context.Context, scope *ReferenceScope, clause parse
 	}
 
 	if clause.WithTies() && view.sortValuesInEachRecord != nil && 0 < limit {
-		bottomSortValues := view.sortValuesInEachRecord[limit-1]
+		bottomSortValues := view.sortValuesInEachRecord[view.offset+limit-1]
 		for limit < view.RecordLen() {
-			if !bottomSortValues.EquivalentTo(view.sortValuesInEachRecord[limit]) {
+			if !bottomSortValues.EquivalentTo(view.sortValuesInEachRecord[view.offset+limit]) {
 				break
 			}
 			limit++
